@@ -72,7 +72,7 @@ impl<'a> Ctx<'a> {
             4 if self.rng.chance(1, 4) => {
                 // (integers only: reals of that magnitude do not survive serde_json's default float
                 // parser bit for bit, which is a third-party matter the ser engine would report)
-                let op = self.rng.range(1, 0x30);
+                let op = if self.rng.chance(1, 2) { 0x16 } else { self.rng.range(1, 0x30) };
                 int((op << 56) | self.rng.range(0, 1000))
             }
             _ => int(*self.rng.pick(&[0, 1, 2, 3, 5, 7, -1, 10, 42])),
@@ -1190,6 +1190,25 @@ pub fn gen_alloc_program(rng: &mut Rng, size: usize, with_submodules: bool) -> M
         pre.push(Card::set_var("junk3", c(CardBody::StringLiteral("garbage two".into()))));
         pre.push(Card::set_global_var("outk2", bin(CardBody::GetProperty, read(&"kh".to_string()), read(&"kt".to_string()))));
         pre.push(Card::set_global_var("outk0", read(&"kh".to_string())));
+    }
+    if rng.chance(1, 12) {
+        // a ghost entry: a table key is mutated, then the entry is popped - the key list forgets it,
+        // the hash part (which looks the key up by its current content) keeps it; the key object is
+        // then only referenced from that slot. A later lookup with the key's ORIGINAL content lands
+        // on the slot by hash and compares with the stored key. (Below the model's abstraction:
+        // cases with the global `gghostkey` are not compared with the model; the schedule oracle
+        // and, in the thorough tier, memcheck decide them.)
+        pre.push(Card::set_var("kt2", c(CardBody::CreateTable)));
+        pre.push(Card::set_property(int(1), read(&"kt2".to_string()), c(CardBody::StringLiteral("x".into()))));
+        pre.push(Card::set_var("ko", c(CardBody::CreateTable)));
+        pre.push(Card::set_property(c(CardBody::StringLiteral("ghost value".into())), read(&"ko".to_string()), read(&"kt2".to_string())));
+        pre.push(Card::set_property(int(2), read(&"kt2".to_string()), c(CardBody::StringLiteral("x".into()))));
+        pre.push(Card::set_var("popped", c(CardBody::PopTable(cao_lang::compiler::UnaryExpression::new(read(&"ko".to_string()))))));
+        pre.push(Card::set_var("kt2", c(CardBody::ScalarNil)));
+        pre.push(Card::set_var("junk4", c(CardBody::StringLiteral("garbage three".into()))));
+        pre.push(Card::set_var("k3", c(CardBody::CreateTable)));
+        pre.push(Card::set_property(int(1), read(&"k3".to_string()), c(CardBody::StringLiteral("x".into()))));
+        pre.push(Card::set_global_var("gghostkey", bin(CardBody::GetProperty, read(&"ko".to_string()), read(&"k3".to_string()))));
     }
     if rng.chance(1, 3) {
         // a key function that REMOVES rows from the table the library function iterates (through a
